@@ -3,7 +3,7 @@
 The first evaluation of each change (tools/seeded.py) applied it to /repo itself and undid it; this re-evaluation applies the
 patch to a scratch copy of /repo's tracked tree under /tmp (PYVC_REPO_SRC points the checks at it) so that it can run while
 /repo is in use, and removes the copy afterwards.
-usage: tools/reseed.py [name-filter]"""
+usage: tools/reseed.py [name-filter] [--shard=i/n] [--jobs=N] [--skip=file-with-names]"""
 import json
 import os
 import subprocess
@@ -17,12 +17,16 @@ def sh(cmd, cwd=None):
 
 
 def main():
-    flt = sys.argv[1] if len(sys.argv) > 1 else ""
+    args = [a for a in sys.argv[1:] if not a.startswith("--")]
+    opts = dict(a[2:].split("=", 1) for a in sys.argv[1:] if a.startswith("--") and "=" in a)
+    flt = args[0] if args else ""
+    shard_i, shard_n = (int(x) for x in opts.get("shard", "0/1").split("/"))
+    jobs = opts.get("jobs")
+    skip = set(open(opts["skip"]).read().split()) if opts.get("skip") else set()
     head = sh("git -C /repo log --format=%h -1").stdout.strip()
     rows = []
-    for d in sorted(os.listdir(os.path.join(VERIF, "seeded"))):
-        if flt and flt not in d:
-            continue
+    todo = [d for d in sorted(os.listdir(os.path.join(VERIF, "seeded"))) if (not flt or flt in d) and d not in skip]
+    for d in todo[shard_i::shard_n]:
         p = os.path.join(VERIF, "seeded", d)
         meta = json.load(open(os.path.join(p, "meta.json")))
         props = list(meta.get("checks", {}).keys()) or [meta["property"]]
@@ -39,7 +43,7 @@ def main():
         det = []
         try:
             for prop in props:
-                c = subprocess.run(f"./check {prop} --tier quick", shell=True, cwd=VERIF, capture_output=True, text=True,
+                c = subprocess.run(f"./check {prop} --tier quick" + (f" --jobs {jobs}" if jobs else ""), shell=True, cwd=VERIF, capture_output=True, text=True,
                                    env=dict(os.environ, PYVC_REPO_SRC=os.path.join(scratch, "src", "datashard")))
                 lines = [l for l in c.stdout.splitlines() if l.startswith(("VIOLATION", "UNDECIDED", "CHECKER"))]
                 meta.setdefault("checks", {})[prop] = {"exit": c.returncode, "lines": lines[:4]}
